@@ -822,7 +822,7 @@ type IKCase struct {
 
 var ikKinds = []string{"put", "put", "put", "put", "get", "get", "containskey", "containsvalue",
 	"remove", "remove", "remove", "clear", "keyarray", "enum", "tostring", "toformatstring", "putall", "putall",
-	"putrange", "removerange", "removelive", "removelive", "srcput", "srcremove"}
+	"putrange", "removerange", "removelive", "removelive", "srcput", "srcremove", "putallself"}
 
 func drawIK(t *rapid.T) IKCase {
 	c := IKCase{}
@@ -1161,6 +1161,15 @@ func runIK(c IKCase) *pbt.Result {
 				return fail("%v", err)
 			}
 			sources = append(sources, source{other, omd})
+		case "putallself":
+			// the map copied into itself: nothing changes, and the call returns
+			returned, p := pbt.WithTimeout(hangLimit, func() { m.PutAll(m) })
+			if !returned {
+				return fail("m.PutAll(m) did not return within %v (the call waits for a lock it holds itself)", hangLimit)
+			}
+			if p != nil {
+				return fail("m.PutAll(m) panicked: %v", p)
+			}
 		case "srcput", "srcremove":
 			// change the source of the latest PutAll; the receiver must not notice
 			if len(sources) == 0 {
@@ -1215,7 +1224,7 @@ const fContainsValueStub = "F121"
 
 var specIK = pbt.Register(pbt.Spec[IKCase]{
 	Prop: "C12", Name: "intkeymap", Parallel: 8,
-	Rule:  "IntKeyMap: histories of 1-60 ops (put/get/contains-key/contains-value/remove/clear/KeyArray under a hang detector/three enumerators/to-string/to-format-string/put-all from a second map (one time in three built with the receiver's geometry) or nil, later puts/removes on that source map, put and remove ranges; every source map stays alive and must equal its own model at the end), int and string values, same key alphabets, capacity 0..200 x load factor 0.1..4 or the default constructor, against a Go map; " + ntRule,
+	Rule:  "IntKeyMap: histories of 1-60 ops (put/get/contains-key/contains-value/remove/clear/KeyArray under a hang detector/three enumerators/to-string/to-format-string/put-all from a second map (one time in three built with the receiver's geometry) or nil, later puts/removes on that source map, the map put into itself, put and remove ranges; every source map stays alive and must equal its own model at the end), int and string values, same key alphabets, capacity 0..200 x load factor 0.1..4 or the default constructor, against a Go map; " + ntRule,
 	Quick: 20000, Thorough: 1000000,
 	Draw: drawIK, Run: noPanic(runIK),
 })
